@@ -30,6 +30,7 @@
                             and attains the minimum residual energy, which equals N * P
      lpc_same_coefficients  real non-zero data, N >= 2, p <= N-1: lpc returns the same a and the error
                             P * N / (N-1)  (the code divides the lag sums by m-1)
+     lpc_default            lpc(x) = lpc(x, len(x)-1)
      aryule_errors          norm not in {biased, unbiased}  or  order >= N  => AssertionError
    NOT PROVED
      - nothing of the statement's clauses in exact arithmetic; rounding of the binary64 code is outside the
@@ -125,6 +126,9 @@ Theorem lpc_same_coefficients (x : list F) (p : nat) (allow : bool) :
     /\ lpc x (Some p) = Some (a, P * ofnat (length x) / ofnat (length x - 1)).
 Proof. exact (lpc_same_coefficients_thm x p allow). Qed.
 
+Theorem lpc_default (x : list F) : lpc x None = lpc x (Some (length x - 1)%nat).
+Proof. exact (lpc_default_thm x). Qed.
+
 Theorem aryule_errors (x : list F) (p : nat) (nm : cnorm) (allow : bool) :
   ((nm = Coeff \/ nm = NoNorm) -> aryule x p nm allow = inl YAssert)
   /\ ((length x <= p)%nat -> aryule x p nm allow = inl YAssert).
@@ -194,6 +198,7 @@ Print Assumptions aryule_matches_acorr.
 Print Assumptions aryule_stable.
 Print Assumptions aryule_is_ls.
 Print Assumptions lpc_same_coefficients.
+Print Assumptions lpc_default.
 Print Assumptions aryule_errors.
 Print Assumptions aryule_stable_ext.
 Print Assumptions aryule_stable_complex.
